@@ -1,6 +1,6 @@
 (* Soundness of the executable matcher with respect to the declarative
    reading of a fragment (C08). *)
-From Coq Require Import List NArith ZArith Arith Bool Lia.
+From Coq Require Import List NArith ZArith Arith Bool Lia FinFun.
 From PG Require Import Common.Strs Graph.Mol Graph.Match.
 Import ListNotations.
 
@@ -148,4 +148,203 @@ Theorem matches_complete_wrt_raw f m img :
 Proof.
   intros Hm Hr Hb Ha Hs. unfold matches. rewrite Hm. apply filter_In. split; auto.
   rewrite Hb, Ha, Hs. reflexivity.
+Qed.
+
+(* ---------- completeness of the enumeration ---------- *)
+Lemma firstn_S_nth {A} (l : list A) n c : nth_error l n = Some c -> firstn (S n) l = firstn n l ++ [c].
+Proof.
+  revert n; induction l as [|x l IH]; intros [|n] E; simpl in *; try discriminate.
+  - inversion E; reflexivity.
+  - f_equal. apply IH. exact E.
+Qed.
+
+Lemma atom_at_lt m c a : atom_at m c = Some a -> c < natom m.
+Proof. unfold atom_at, natom. intros H. apply nth_error_Some. congruence. Qed.
+
+Lemma embed_complete f m qall : forall qs done partial img,
+  qall = done ++ qs -> length img = length qall -> placed f m qall img ->
+  In (firstn (length done) img) partial ->
+  In img (embed f m qs (length done) partial).
+Proof.
+  induction qs as [|q qs IH]; intros done partial img Hq Hl Hp Hin; simpl.
+  - rewrite app_nil_r in Hq. subst qall. rewrite <- Hl, firstn_all in Hin. exact Hin.
+  - assert (EL : S (length done) = length (done ++ [q])) by (rewrite app_length; simpl; lia).
+    rewrite EL. apply (IH (done ++ [q])); auto.
+    + rewrite <- app_assoc. exact Hq.
+    + rewrite <- EL.
+      assert (Hk : length done < length img) by (rewrite Hl, Hq, app_length; simpl; lia).
+      destruct (nth_error img (length done)) as [c|] eqn:E; [|apply nth_error_None in E; lia].
+      rewrite (firstn_S_nth _ _ _ E). apply in_flat_map. exists (firstn (length done) img). split; [exact Hin|].
+      apply in_map_iff. exists c. split; [reflexivity|]. apply filter_In.
+      destruct (Hp _ _ E) as (q' & Hq' & Hok).
+      assert (q' = q).
+      { rewrite Hq in Hq'. rewrite nth_error_app2 in Hq' by lia. rewrite Nat.sub_diag in Hq'. simpl in Hq'. congruence. }
+      subst q'. split; [|exact Hok].
+      apply in_seq. split; [lia|]. simpl.
+      unfold place_ok in Hok. destruct (atom_at m c) as [a|] eqn:Ea; [|discriminate].
+      eapply atom_at_lt; eauto.
+Qed.
+
+(* every legally placed tuple is enumerated *)
+Theorem raw_embeddings_complete f m img :
+  length img = length (f_atoms f) -> placed f m (f_atoms f) img -> In img (raw_embeddings f m).
+Proof.
+  intros Hl Hp. unfold raw_embeddings.
+  apply (embed_complete f m (f_atoms f) (f_atoms f) [] [[]] img); auto. simpl. left. reflexivity.
+Qed.
+
+Theorem raw_embeddings_iff f m img :
+  In img (raw_embeddings f m) <-> length img = length (f_atoms f) /\ placed f m (f_atoms f) img.
+Proof. split; [apply raw_embeddings_sound|intros [A B]; apply raw_embeddings_complete; auto]. Qed.
+
+(* ---------- the declarative reading of a fragment ----------
+   img denotes an embedding of the fragment's graph: one distinct molecule
+   atom per declared query atom, each of the declared element class / charge,
+   and every declared bond present between the images with a matching type.
+   Nothing about enumeration order or "earlier" atoms. *)
+Definition Denotes (f : fragment) (m : mol) (img : list nat) : Prop :=
+  length img = length (f_atoms f) /\ NoDup img
+  /\ (forall k c q, nth_error img k = Some c -> nth_error (f_atoms f) k = Some q ->
+        exists a, atom_at m c = Some a /\ qatom_ok q a = true)
+  /\ (forall i j t ci cj, In (i, j, t) (f_bonds f) -> nth_error img i = Some ci -> nth_error img j = Some cj ->
+        exists b, bond_between m ci cj = Some b /\ qbond_ok t b = true).
+
+(* the reader only produces fragments whose bonds join two different declared atoms *)
+Definition wf_bonds (f : fragment) : Prop :=
+  forall i j t, In (i, j, t) (f_bonds f) -> i <> j /\ i < length (f_atoms f) /\ j < length (f_atoms f).
+
+Lemma find_ext' {A} (p q : A -> bool) l : (forall x, p x = q x) -> find p l = find q l.
+Proof. intros H. induction l as [|x l IH]; simpl; auto. rewrite H, IH. reflexivity. Qed.
+
+Lemma bond_between_sym m a b : bond_between m a b = bond_between m b a.
+Proof. unfold bond_between. apply find_ext'. intros x. apply orb_comm. Qed.
+
+Lemma nth_error_firstn_lt {A} (l : list A) k j : j < k -> nth_error (firstn k l) j = nth_error l j.
+Proof.
+  revert k j; induction l as [|y l IH]; intros [|k] [|j] H; simpl; auto; try lia.
+  apply IH. lia.
+Qed.
+
+Lemma NoDup_not_in_prefix (l : list nat) k c : NoDup l -> nth_error l k = Some c -> ~ In c (firstn k l).
+Proof.
+  intros Hn Hk Hin. apply In_nth_error in Hin. destruct Hin as [j Hj].
+  assert (Hjk : j < k).
+  { assert (j < length (firstn k l)) by (apply nth_error_Some; congruence).
+    rewrite firstn_length in H. lia. }
+  rewrite nth_error_firstn_lt in Hj by exact Hjk.
+  rewrite NoDup_nth_error in Hn.
+  assert (j = k); [|lia]. apply Hn; [apply nth_error_Some; congruence|congruence].
+Qed.
+
+Lemma bonds_into_in f k j t : In (j, t) (bonds_into f k) ->
+  j < k /\ (In (k, j, t) (f_bonds f) \/ In (j, k, t) (f_bonds f)).
+Proof.
+  unfold bonds_into. intros H. apply in_flat_map in H. destruct H as ([[i0 j0] t0] & Hin & H).
+  destruct (Nat.eqb_spec i0 k) as [->|]; simpl in H.
+  - destruct (Nat.ltb_spec j0 k); simpl in H.
+    + destruct H as [H|[]]. inversion H; subst. auto.
+    + destruct (Nat.eqb_spec j0 k) as [->|]; simpl in H; [|destruct H].
+      destruct (Nat.ltb_spec k k); [lia|destruct H].
+  - destruct (Nat.eqb_spec j0 k) as [->|]; simpl in H; [|destruct H].
+    destruct (Nat.ltb_spec i0 k); simpl in H; [|destruct H].
+    destruct H as [H|[]]. inversion H; subst. auto.
+Qed.
+
+Lemma in_bonds_into f i j t : In (i, j, t) (f_bonds f) ->
+  (j < i -> In (j, t) (bonds_into f i)) /\ (i < j -> In (i, t) (bonds_into f j)).
+Proof.
+  intros H. split; intros L; unfold bonds_into; apply in_flat_map; exists (i, j, t); (split; [exact H|]).
+  - rewrite Nat.eqb_refl. destruct (Nat.ltb_spec j i); [|lia]. simpl. auto.
+  - destruct (Nat.eqb_spec i j); [lia|]. simpl. rewrite Nat.eqb_refl.
+    destruct (Nat.ltb_spec i j); [|lia]. simpl. auto.
+Qed.
+
+Theorem denotes_placed f m img : Denotes f m img -> placed f m (f_atoms f) img.
+Proof.
+  intros (Hl & Hn & Ha & Hb) k c Hk.
+  assert (Hlt : k < length (f_atoms f)) by (rewrite <- Hl; apply nth_error_Some; congruence).
+  destruct (nth_error (f_atoms f) k) as [q|] eqn:Eq; [|apply nth_error_None in Eq; lia].
+  exists q. split; [reflexivity|]. unfold place_ok.
+  destruct (Ha k c q Hk Eq) as (a & Hat & Hq). rewrite Hat, Hq. simpl.
+  apply andb_true_iff. split.
+  - apply negb_true_iff. destruct (mem_nat c (firstn k img)) eqn:E; [|reflexivity].
+    exfalso. unfold mem_nat in E. apply existsb_exists in E. destruct E as (x & Hx & Ex).
+    apply Nat.eqb_eq in Ex. subst x. eapply NoDup_not_in_prefix; eauto.
+  - apply forallb_forall. intros [j t] Hj. simpl.
+    destruct (bonds_into_in f k j t Hj) as [Hjk Hin].
+    rewrite nth_error_firstn_lt by exact Hjk.
+    destruct (nth_error img j) as [cj|] eqn:Ej; [|apply nth_error_None in Ej; lia].
+    destruct Hin as [Hin|Hin].
+    + destruct (Hb _ _ _ _ _ Hin Hk Ej) as (b & Eb & Ok). rewrite Eb. exact Ok.
+    + destruct (Hb _ _ _ _ _ Hin Ej Hk) as (b & Eb & Ok). rewrite bond_between_sym, Eb. exact Ok.
+Qed.
+
+Theorem placed_denotes f m img : wf_bonds f ->
+  length img = length (f_atoms f) -> placed f m (f_atoms f) img -> Denotes f m img.
+Proof.
+  intros Hwf Hl Hp. split; [exact Hl|]. split; [eapply placed_injective; eauto|]. split.
+  - intros k c q Hk Hq. destruct (placed_atoms_ok f m _ img Hp k c Hk) as (q' & a & Hq' & Ha & Hok).
+    exists a. split; [exact Ha|]. congruence.
+  - intros i j t ci cj Hin Hi Hj. destruct (Hwf i j t Hin) as (Hne & _ & _).
+    destruct (in_bonds_into f i j t Hin) as [A B].
+    destruct (Nat.lt_total i j) as [L|[E|L]]; [|contradiction|].
+    + destruct (placed_bonds_ok f m _ img Hp j cj Hj i t (B L)) as (ci' & b & Hi' & Eb & Ok).
+      exists b. split; [|exact Ok]. rewrite bond_between_sym. congruence.
+    + destruct (placed_bonds_ok f m _ img Hp i ci Hi j t (A L)) as (cj' & b & Hj' & Eb & Ok).
+      exists b. split; [|exact Ok]. congruence.
+Qed.
+
+(* the matcher returns EXACTLY the embeddings the fragment denotes that pass
+   the molecule prefix and the three constraint filters *)
+Theorem matches_iff f m img : wf_bonds f ->
+  (In img (matches f m) <->
+   forallb (mcon_ok m) (f_mol f) = true /\ Denotes f m img
+   /\ bcons_ok f m img = true /\ acons_ok f m img = true /\ scons_ok f m img = true).
+Proof.
+  intros Hwf. split.
+  - intros H. destruct (matches_sound f m img H) as (A & B & C & D & E & F & G).
+    repeat split; auto; apply (placed_denotes f m img Hwf B C).
+  - intros (A & D & E & F & G). apply matches_complete_wrt_raw; auto.
+    apply raw_embeddings_complete; [apply D|apply denotes_placed; exact D].
+Qed.
+
+Lemma NoDup_app_intro {A} (l1 l2 : list A) :
+  NoDup l1 -> NoDup l2 -> (forall x, In x l1 -> In x l2 -> False) -> NoDup (l1 ++ l2).
+Proof.
+  induction l1 as [|x l1 IH]; intros H1 H2 Hd; simpl; [exact H2|].
+  inversion H1 as [|? ? Hx H1']; subst. constructor.
+  - intros Hin. apply in_app_or in Hin. destruct Hin as [Hin|Hin]; [contradiction|].
+    apply (Hd x); [left; reflexivity|exact Hin].
+  - apply IH; auto. intros y Hy1 Hy2. apply (Hd y); [right; exact Hy1|exact Hy2].
+Qed.
+
+(* no tuple is returned twice *)
+Lemma embed_nodup f m : forall qs k partial, NoDup partial ->
+  (forall p, In p partial -> length p = k) -> NoDup (embed f m qs k partial).
+Proof.
+  induction qs as [|q qs IH]; intros k partial Hn Hl; simpl; [exact Hn|].
+  apply IH.
+  - clear IH. induction partial as [|p ps IHp]; simpl; [constructor|].
+    inversion Hn as [|? ? Hnot Hn']; subst.
+    assert (NoDup (map (fun c => p ++ [c]) (filter (place_ok f m k q p) (seq 0 (natom m))))).
+    { apply FinFun.Injective_map_NoDup.
+      - intros x y Hxy. apply app_inv_head in Hxy. congruence.
+      - apply NoDup_filter. apply seq_NoDup. }
+    apply NoDup_app_intro; [exact H| |].
+    + apply IHp; auto. intros p' Hp'. apply Hl. right. exact Hp'.
+    + intros x Hx1 Hx2. apply in_map_iff in Hx1. destruct Hx1 as (c & <- & _).
+      apply in_flat_map in Hx2. destruct Hx2 as (p' & Hp' & Hx2).
+      apply in_map_iff in Hx2. destruct Hx2 as (c' & Heq & _).
+      assert (length p' = length p) by (rewrite (Hl p'), (Hl p); auto; [left; reflexivity|right; exact Hp']).
+      apply app_inj_tail in Heq. destruct Heq as [-> _]. contradiction.
+  - intros p Hp. apply in_flat_map in Hp. destruct Hp as (pre & Hpre & Hp).
+    apply in_map_iff in Hp. destruct Hp as (c & <- & _). rewrite app_length, (Hl pre Hpre). simpl. lia.
+Qed.
+
+Theorem matches_nodup f m : NoDup (matches f m).
+Proof.
+  unfold matches. destruct (forallb (mcon_ok m) (f_mol f)); [|constructor].
+  apply NoDup_filter. unfold raw_embeddings. apply (embed_nodup f m _ 0).
+  - constructor; [intros []|constructor].
+  - intros p [<-|[]]. reflexivity.
 Qed.
